@@ -54,13 +54,36 @@ package outlier
 //@   modifies gDeleted, mapof(nodeBreakers[resource])
 //@ ghost var gDeleted Int
 
+//@ ghost var gRecoverN Int
 //@ func (r *Recycler) recover(node)
 //@   props C20
 //@   requires r != nil && r.status != nil
+//@   sets gRecoverN = old(gRecoverN) + 1
+//@   ensures[recorded] gRecoverN == old(gRecoverN) + 1
 //@   ensures[marks-recovered] old(has(r.status, node)) ==> has(r.status, node) && r.status[node]
 //@   ensures[unknown-node-ignored] !old(has(r.status, node)) ==> !has(r.status, node)
 //@   ensures[others-untouched] forall k Str :: k != node ==> has(r.status, k) == old(has(r.status, k)) && r.status[k] == old(r.status[k])
-//@   modifies mapof(r.status)
+//@   modifies mapof(r.status), gRecoverN
+
+// the per-resource recycler registry and the creation of a node breaker are not specified here (assumed)
+//@ func getRecyclerOfResource(resource) r
+//@   assumed
+//@   ensures r != nil && allocated(r) && r.status != nil
+//@   modifies heap
+//@ func addNodeBreakerOfResource(resource, address)
+//@   assumed
+//@   modifies heap
+
+// "a node that completes a request successfully is not recycled": the completion is reported to the node's breaker at
+// most once, and exactly when that report carries no error the pending recycling of the node is cancelled
+//@ func (c *MetricStatSlot) OnCompleted(ctx)
+//@   props C20
+//@   requires ctx != nil && ctx.Resource != nil
+//@   let d0 = gDoneN
+//@   let r0 = gRecoverN
+//@   ensures[completion-reported-at-most-once] gDoneN == d0 || gDoneN == d0 + 1
+//@   ensures[successful-completion-cancels-recycling] gDoneN == d0 + 1 && sel(gDoneErr, d0) == nil ==> gRecoverN == r0 + 1
+//@   ensures[nothing-cancelled-otherwise] gDoneN == d0 || sel(gDoneErr, d0) != nil ==> gRecoverN == r0
 
 //@ func (r *Recycler) recycle(node)
 //@   props C20
